@@ -332,18 +332,30 @@ Definition violin_stats_pinned (data : list T) : list T :=
 Definition violin_npoints (nrows : Z) : Z :=
   Z.max VIOLIN_NPOINTS_LO (Z.min VIOLIN_NPOINTS_HI nrows).
 
-(* a density profile is computed when more than 2 values are finite *)
-Definition violin_has_profile (data : list T) : bool :=
-  (VIOLIN_KDE_NOK_MAX <? Z.of_nat (length (finite_values data)))%Z.
+(* a density profile is computed when more than 2 values are finite and scipy's
+   gaussian_kde accepts the sample ([kde_ok]: external; it refuses constant samples) *)
+Definition violin_has_profile (data : list T) (kde_ok : bool) : bool :=
+  (VIOLIN_KDE_NOK_MAX <? Z.of_nat (length (finite_values data)))%Z && kde_ok.
 
-(* x = sort(concatenate([linspace(x0, x1, npts//2), sen.quantile(linspace(0,1,npts//2)) + err])) *)
-Definition violin_kde_x (data : list T) (npts : Z) (err : list T) : list T :=
+(* x = sort(concatenate([linspace(x0, x1, npts - npts//2),
+                           sen.quantile(linspace(0, 1, npts//2)) + err]))
+   with err = 1e-6 * u, u the recorded draw of np.random.uniform(-1, 1, npts//2).
+   [nreg] is the number of regularly spaced points: npts - npts//2 in the repaired code,
+   npts//2 in the pinned code (one point short when npts is odd: the assignment into the
+   npts-row frame then raised). *)
+Definition violin_kde_x_gen (nreg : Z) (data : list T) (npts : Z) (u : list T) : list T :=
   let fin := finite_values data in
   let s := sort_values fin in
   let m := (npts / 2)%Z in
   let q := linspace (n0 N) (n1 N) m in
-  sort_values (linspace (tmin fin) (tmax fin) m ++
+  let err := map (nmul N (qc VIOLIN_ERR_SCALE_NUM VIOLIN_ERR_SCALE_DEN)) u in
+  sort_values (linspace (tmin fin) (tmax fin) nreg ++
                map2 (nadd N) (map (pd_quantile s) q) err).
+
+Definition violin_kde_x (data : list T) (npts : Z) (u : list T) : list T :=
+  violin_kde_x_gen (npts - npts / 2)%Z data npts u.
+Definition violin_kde_x_pinned (data : list T) (npts : Z) (u : list T) : list T :=
+  violin_kde_x_gen (npts / 2)%Z data npts u.
 
 (* y = (y-y.min())/(y.max()-y.min()) *)
 Definition normalise (y : list T) : list T :=
@@ -429,7 +441,7 @@ Inductive scase :=
   (* Violin(data).stats, one column *)
   | CViolin (data : list float) (expect : list float)
   (* Violin: number of profile points, profile present, abscissae (recorded err) *)
-  | CViolinX (data : list float) (nrows : Z) (err : list float)
+  | CViolinX (data : list float) (nrows : Z) (u : list float) (kde_ok : bool)
              (npts : Z) (has : bool) (expect : list float)
   (* min-max normalisation of a recorded raw density profile *)
   | CNorm (y : list float) (expect : list float).
@@ -454,9 +466,9 @@ Definition s_ok (c : scase) : bool :=
       opt_same2 (by_agree (f_scale data)) (boxplot_by F64 by_ data box wh) e
   | CViolin data e =>
       list_same (f_near 0x1p-43 (f_scale data)) (violin_stats F64 data) e
-  | CViolinX data nrows err npts has e =>
-      (violin_npoints nrows =? npts)%Z && Bool.eqb (violin_has_profile F64 data) has &&
-      (if has then list_same (f_near 0x1p-40 (f_scale data)) (violin_kde_x F64 data npts err) e
+  | CViolinX data nrows u kde_ok npts has e =>
+      (violin_npoints nrows =? npts)%Z && Bool.eqb (violin_has_profile F64 data kde_ok) has &&
+      (if has then list_same (f_near 0x1p-40 (f_scale data)) (violin_kde_x F64 data npts u) e
        else true)
   | CNorm y e => list_same f_same (normalise F64 y) e
   end.
